@@ -31,6 +31,7 @@ type World struct {
 	finalsN int
 	crashed bool // marks were lost in a crash restart
 	refused int
+	incAt   map[int]uint64 // DA-included height the node reported right before its n-th durable write
 }
 
 func be(b []byte) uint64 {
@@ -104,6 +105,9 @@ func (w *World) start(img map[string][]byte, root string) string {
 	}
 	w.dead = false
 	w.finalsN = 0
+	w.incAt = map[int]uint64{}
+	m, at := env.M, w.incAt
+	env.DS.OnWrite = func(n int) { at[n] = m.GetDAIncludedHeight() }
 	return "start " + w.state()
 }
 
@@ -240,6 +244,7 @@ func Run(c *hx.Ctx) {
 				w.crashed = true
 			}
 			img := e.DS.ImageAt(keep)
+			reported := w.incAt
 			c.Emit("%s", w.start(img, root))
 			if root != "" && w.env != nil {
 				w.env.Options.Root = ""
@@ -270,6 +275,9 @@ func Run(c *hx.Ctx) {
 					}
 					if inc < pre("d") {
 						c.Report("C07/da-included/decreased-across-restart", fmt.Sprintf("image %d -> %d", pre("d"), inc))
+					}
+					if rep, ok := reported[keep]; ok && inc < rep {
+						c.Report("C07/da-included/reported-before-durable", fmt.Sprintf("the node reported %d at the instant it died (before its durable write %d), after the restart it reports %d", rep, keep, inc))
 					}
 				}
 				w.lastHwm, w.lastDwm, w.lastInc = hm, dm, inc
@@ -416,6 +424,22 @@ func (w *World) monitorSubmit(verb string, n0, scriptLeft int) {
 				if !bytes.Equal(want, got) || !okSig || len(sd.Txs) == 0 {
 					c.Report("C06/blob/data-differs-from-committed", fmt.Sprintf("height %d", h))
 				}
+			}
+		}
+	}
+	// an acknowledged acceptance is recorded: after the iteration the watermark covers every blob the DA layer
+	// accepted AND acknowledged (otherwise confirmed items are re-submitted and the pending count never falls)
+	for _, sb := range w.da.Submits[n0:] {
+		if !strings.HasPrefix(sb.Answer, "ok") || sb.Accepted == 0 {
+			continue
+		}
+		for i := 0; i < sb.Accepted && i < len(sb.Blobs); i++ {
+			k, h, _, _ := decodeBlob(sb.Blobs[i])
+			if k == "h" && h > hm {
+				c.Report("C06/watermark/behind-acknowledged-acceptance", fmt.Sprintf("header %d was accepted and acknowledged, watermark %d", h, hm))
+			}
+			if k == "d" && h > dm {
+				c.Report("C06/watermark/behind-acknowledged-acceptance", fmt.Sprintf("data %d was accepted and acknowledged, watermark %d", h, dm))
 			}
 		}
 	}
